@@ -82,7 +82,7 @@ def gen_scenario(rng):
     cls = rng.choice(["T", "T", "S"])
     nsess = rng.choice([1, 1, 2, 3])
     sc = {"cls": cls, "size": rng.choice([None, 1, 2, 5]), "widths": [rng.choice([80, 80, 40, 120, rng.randint(30, 200)]) for _ in range(nsess)],
-          "pre": rng.choice([0, 0, 1, 2, 3]), "seed": rng.getrandbits(48), "n": rng.randint(6, 30), "sfunc": rng.choice(["work", "work", "block", "fail"])}
+          "pre": rng.choice([0, 0, 1, 2, 3]), "seed": rng.getrandbits(48), "n": rng.randint(6, 30) if rng.random() > 0.08 else rng.randint(80, 160), "sfunc": rng.choice(["work", "work", "block", "fail"])}
     return sc
 
 
